@@ -180,7 +180,11 @@ Proof.
       cbn [firstn]. rewrite app_nil_r. exact Hfp.
     - auto. }
   destruct Hin as [Hni Hfi].
-  rewrite firstn_app_le by (rewrite bxor_length, (aead_ks_len P HP); lia).
+  match goal with |- firstn n (bxor ?i _ ++ _) = _ => change i with inner end.
+  match goal with |- context [firstn n (bxor inner ?k ++ _)] =>
+    assert (Hle : (n <= length (bxor inner k))%nat)
+      by (rewrite bxor_length, (aead_ks_len P HP), Nat.min_id; exact Hni) end.
+  rewrite firstn_app_le by exact Hle.
   rewrite firstn_bxor, Hfi, (aead_ks_prefix P HP) by exact Hni.
   rewrite Hks. reflexivity.
 Qed.
